@@ -100,6 +100,10 @@ func (rd *refDriver) arg(t reflect.Type, recv reflect.Value) (v reflect.Value, s
 		if t.NumField() == 0 {
 			return reflect.Zero(t), "struct{}", true
 		}
+		if t == reflect.TypeOf(J{}) {
+			v := JDom(8).AnyVal(r)
+			return reflect.ValueOf(v), v, true
+		}
 		return reflect.Value{}, nil, false
 	case reflect.Slice:
 		if t.Elem().Kind() == reflect.Uint8 {
